@@ -254,6 +254,16 @@ def check_diagram_level(ctx):
     shape.match(ctx, "R14.3", MON + ".Diagram.lambdify", ret_expr(fn.body),
                 "lambda *xs: self.id(self.dom).then(*(self.id(left) @ box.lambdify(*symbols, **kwargs)(*xs) @ self.id(right) for left, box, right in self.layers))", {},
                 mod=MON, node=fn, sig="diagram-lambdify")
+    fn = m.func("discopy.tensor.Tensor.lambdify")
+    ctx.analysed("discopy.tensor.Tensor.lambdify")
+    lam = next((s.value for s in fn.body if isinstance(s, ast.Assign) and isinstance(s.value, ast.Call) and ast.unparse(s.value.func) == "lambdify"), None)
+    ctx.need(lam is not None and len(lam.args) >= 2, "Tensor.lambdify does not call sympy.lambdify(symbols, array)")
+    pos = [ast.unparse(a) for a in lam.args[:2]]
+    ctx.ob("R14.3", "discopy.tensor.Tensor.lambdify:arguments", pos == [fn.args.vararg.arg, "self.array"], found=pos, required="sympy.lambdify(symbols, expression): the symbols first, the array of the tensor second", mod="discopy.tensor",
+           node=lam, sig="tensor-lambdify-args")
+    tgt = next(s.targets[0].id for s in fn.body if isinstance(s, ast.Assign) and s.value is lam)
+    shape.match(ctx, "R14.3", "discopy.tensor.Tensor.lambdify:result", ret_expr(fn.body), "lambda *xs: Tensor(self.dom, self.cod, array(*xs))", {tgt: "array"}, mod="discopy.tensor", node=fn, sig="tensor-lambdify-result",
+                required="a tensor of the same type whose array is the lambdified array at the given values")
     fn = m.func(CAT + ".Arrow.subs")
     shape.match(ctx, "R14.3", CAT + ".Arrow.subs", ret_expr(fn.body), "self.upgrade(Functor(ob=lambda x: x, ar=lambda f: f.subs(*args))(self))", {}, mod=CAT, node=fn, sig="arrow-subs")
     fn = m.func(CAT + ".Arrow.lambdify")
